@@ -1,5 +1,6 @@
 //! Verification harness for xml_schema_generator (see /verif/DESIGN.md).
 
+pub mod bytespace;
 pub mod ctx;
 pub mod docspace;
 pub mod dom;
